@@ -1,6 +1,9 @@
 // C11 child: configure a synchronous logger with file sink(s), log a sequence of records of given lengths, die by qFatal.
 // usage: c11child <dir> <cfg> <sink> <thread: main|sec> <len,len,...,len>     (the last length is the fatal record's)
 //   cfg : fluent | nested | oneline | ini | brokenfirst | fullfirst | twofiles | stderrfirst
+//         filtered  : a sub-pipeline with its own file (trace.log) behind a filter that lets the ordinary records through but not the fatal one
+//         dupfatal  : a duplicate filter in front of the sink, and the fatal message repeats the text of the record before it
+//         slowother : another thread is inside a slow handler (1.5 s) when the fatal message is raised
 //   sink: file | rotbig | rot1 (1-byte limit: every record rotates) | rot2 (limit = 40 bytes: a few records per file) | rotdaily
 // Record i has the text "r<i>:" padded with 'x' to exactly the given length (>= 6).
 #include <QCoreApplication>
@@ -16,6 +19,7 @@ static QByteArray text(int i, int len, bool fatal)
     while (t.size() < len) t += 'x';
     return t;
 }
+static bool g_dupFatal = false;
 static void work(const std::vector<int> &lens)
 {
     for (size_t i = 0; i + 1 < lens.size(); i++) {
@@ -24,6 +28,7 @@ static void work(const std::vector<int> &lens)
         else if (i % 3 == 2) qInfo("%s", t.constData());
         else qDebug("%s", t.constData());
     }
+    if (g_dupFatal) qWarning("%s", text(0, lens.back(), true).constData());   // same text as the fatal message that follows
     qFatal("%s", text(0, lens.back(), true).constData());
 }
 
@@ -61,6 +66,23 @@ int main(int argc, char **argv)
     } else if (cfg == "twofiles") {                      // two healthy file sinks, the second inside a sub-pipeline
         gQtLogger.format(pat).sendToFile(dir + "/second.log").pipeline().sendToFile(path, L, N, opts).end();
         gQtLogger.installMessageHandler();
+    } else if (cfg == "filtered") {
+        gQtLogger.format(pat).pipeline().filter(QStringLiteral("^r[0-9]")).sendToFile(dir + "/trace.log").end().sendToFile(path, L, N, opts);
+        gQtLogger.installMessageHandler();
+    } else if (cfg == "dupfatal") {
+        g_dupFatal = true;
+        gQtLogger.filterDuplicate().format(pat).sendToFile(path, L, N, opts);
+        gQtLogger.installMessageHandler();
+    } else if (cfg == "slowother") {
+        gQtLogger.handler([](QtLogger::LogMessage &m) { if (m.message().startsWith(QLatin1String("slow"))) QThread::msleep(1500); return true; })
+                 .format(pat).sendToFile(path, L, N, opts);
+        gQtLogger.installMessageHandler();
+        std::thread slow([] { qDebug("slow:handler"); });
+        QThread::msleep(200);             // the other thread is inside the logger now
+        if (thr == "main") work(lens);
+        else { std::thread t([&] { work(lens); }); t.join(); }
+        slow.join();
+        return 0; // not reached
     } else if (cfg == "stderrfirst") {
         gQtLogger.format(pat).sendToStdErr().sendToFile(path, L, N, opts);
         gQtLogger.installMessageHandler();
